@@ -16,7 +16,7 @@ for h,subj in reversed(fixes):
     if r.returncode!=0:
         print(h,"REVERSE PATCH FAILED",r.stdout.decode()[:300]); continue
     shutil.rmtree(SV,ignore_errors=True); os.makedirs(SV); shutil.copy(V+"/known_findings.json",SV)
-    out=subprocess.run([V+"/bin/sopverif","check","--property","all","--repo",S,"--verif",SV],capture_output=True,text=True).stdout
+    out=subprocess.run([os.environ.get("SOPVERIF",V+"/bin/sopverif"),"check","--property","all","--repo",S,"--verif",SV],capture_output=True,text=True).stdout
     keys=[]
     for f in sorted(os.listdir(SV+"/evidence/violations")) if os.path.isdir(SV+"/evidence/violations") else []:
         j=json.load(open(SV+"/evidence/violations/"+f))
